@@ -176,7 +176,7 @@ def check_C07():
     ctx = Ctx("C07"); cov = {}
     broken = proof_part(ctx, "props/C07.v", ["proofs/C07_range.v", "proofs/C01_ops.v", "proofs/SpecExec_sound.v", "proofs/C11_table.v", "proofs/C11_lists.v",
                                              "proofs/X_basic.v", "proofs/X_inv.v", "proofs/X_c13.v", "proofs/X_own.v", "proofs/X_chain.v", "proofs/X_c04.v",
-                                             "proofs/X_lin.v", "proofs/X_resize.v", "proofs/X_count.v", "proofs/X_range.v", "XMachine.v"], cov)
+                                             "proofs/X_lin.v", "proofs/X_resize.v", "proofs/X_count.v", "proofs/X_range.v", "XMachine.v", "props/C03.v", "proofs/XS_range.v", "XMachineS.v"], cov)
     cache_seq_part(ctx, "C07", cov, N(ctx, 1200, 20000), broken)
     table_part(ctx, "C07", cov, N(ctx, 60, 600), [])
     # on the real code, all containers: every traversal of every schedule is checked (lincheck range-check: no key twice, only
@@ -222,7 +222,7 @@ def check_C08():
     ctx = Ctx("C08"); cov = {}
     broken = proof_part(ctx, "props/C08.v", ["proofs/C08_cache.v", "proofs/C06_hist.v", "proofs/C06_seq.v", "proofs/C11_table.v", "proofs/C11_lists.v",
                                              "proofs/X_basic.v", "proofs/X_inv.v", "proofs/X_c13.v", "proofs/X_own.v", "proofs/X_chain.v", "proofs/X_c04.v",
-                                             "proofs/X_lin.v", "proofs/X_resize.v", "proofs/X_read.v", "proofs/X_count.v", "XMachine.v", "props/C03.v", "proofs/XS_lock.v", "proofs/XS_own.v", "proofs/XS_count.v", "proofs/XS_inst.v", "XMachineS.v"], cov)
+                                             "proofs/X_lin.v", "proofs/X_resize.v", "proofs/X_read.v", "proofs/X_count.v", "XMachine.v", "props/C03.v", "proofs/XS_lock.v", "proofs/XS_own.v", "proofs/XS_count.v", "proofs/XS_size.v", "proofs/XS_inst.v", "XMachineS.v"], cov)
     res = cache_seq_part(ctx, "C08", cov, N(ctx, 1200, 20000), broken, dense=True)
     law_part(ctx, "C08", cov, res)
     table_part(ctx, "C08", cov, N(ctx, 60, 600), [])
@@ -432,7 +432,7 @@ def check_C02():
 def check_C05():
     ctx = Ctx("C05"); cov = {}
     broken = proof_part(ctx, "props/C05.v", ["proofs/C05_spec.v", "proofs/C05_map.v", "proofs/C02_lin.v", "proofs/C02_methods.v", "proofs/C11_table.v",
-                                             "proofs/X_basic.v", "proofs/X_inv.v", "proofs/X_c13.v", "proofs/X_fn.v", "XMachine.v"], cov)
+                                             "proofs/X_basic.v", "proofs/X_inv.v", "proofs/X_c13.v", "proofs/X_fn.v", "XMachine.v", "props/C03.v", "proofs/XS_fn.v", "XMachineS.v"], cov)
     n = N(ctx, 1500, 25000)
     sched_part(ctx, "C05", cov, [("Cache", n, []), ("CacheOf_int", n, []), ("Map", n, ["-prefill", "73"]),
                                  ("MapOf_int", n, ["-hasher", "const", "-prefill", "125"]), ("MapOf_str", n, ["-prefill", "121"])])
@@ -653,7 +653,7 @@ def check_C04():
 
 def check_C03():
     ctx = Ctx("C03"); cov = {}
-    broken = proof_part(ctx, "props/C03.v", ["proofs/C11_table.v", "proofs/C11_lists.v", "proofs/X_maps.v", "proofs/XS_inv.v", "TableModel.v", "XMachineS.v", "proofs/XS_lock.v", "proofs/XS_own.v", "proofs/XS_count.v", "proofs/XS_inst.v", "proofs/XS_cells.v", "proofs/XS_vis.v", "proofs/XS_abs.v", "proofs/XS_cinst.v", "proofs/XS_resize.v", "proofs/XS_rinst.v", "proofs/XS_read.v", "proofs/XS_rdinst.v"], cov)
+    broken = proof_part(ctx, "props/C03.v", ["proofs/C11_table.v", "proofs/C11_lists.v", "proofs/X_maps.v", "proofs/XS_inv.v", "TableModel.v", "XMachineS.v", "proofs/XS_lock.v", "proofs/XS_own.v", "proofs/XS_count.v", "proofs/XS_inst.v", "proofs/XS_cells.v", "proofs/XS_vis.v", "proofs/XS_abs.v", "proofs/XS_cinst.v", "proofs/XS_resize.v", "proofs/XS_rinst.v", "proofs/XS_read.v", "proofs/XS_rdinst.v", "proofs/XS_loadhit.v", "proofs/XS_lhinst.v", "proofs/XS_loadmiss.v", "proofs/XS_lminst.v", "proofs/XS_fn.v", "proofs/XS_size.v", "proofs/XS_range.v"], cov)
     n = N(ctx, 2000, 30000)
     from . import solo
     fam = solo.resize_families(ctx.tier, [("Map", None)])
